@@ -859,10 +859,18 @@ func (p *sshFxpReadPacket) UnmarshalBinary(b []byte) error {
 // So, we need: uint32(length) + byte(type) + uint32(id) + uint32(data_length)
 const dataHeaderLen = 4 + 1 + 4 + 4
 
+// maxDataLen is the largest payload of a data packet whose buffer (payload and header) can be allocated.
+const maxDataLen = 1<<31 - 1 - dataHeaderLen
+
 func (p *sshFxpReadPacket) getDataSlice(alloc *allocator, orderID uint32, maxTxPacket uint32) []byte {
 	dataLen := p.Len
 	if dataLen > maxTxPacket {
 		dataLen = maxTxPacket
+	}
+	// A read may always return less than was asked for. With the limit raised to its maximum,
+	// the buffer size below must neither wrap around uint32 nor exceed what make accepts on 32-bit builds.
+	if dataLen > maxDataLen {
+		dataLen = maxDataLen
 	}
 
 	// maxTxPacket may have been raised beyond the page size: such a read is served from a buffer of its own,
